@@ -1427,6 +1427,40 @@ func c18ScriptCloseQueue(run *c18Run) {
 		}
 		return cond()
 	}
+	// A caller that looked the pool up just before CloseAddr and submits after the send loop has gone: the pool is
+	// closed through the public call, then put back under its address for the duration of the submissions (the very
+	// state such a caller holds), and removed again.  Every such call must still complete (with an error).
+	for k := 0; k < vrep.Pick(2, 6); k++ {
+		warm := mk('s')
+		run.issue(warm)
+		if warm.err != nil {
+			run.count("stalepool_warmup_failed", 1)
+			time.Sleep(10 * time.Millisecond)
+			continue
+		}
+		run.rpc.RLock()
+		stale := run.rpc.connPools[run.srv.addr]
+		run.rpc.RUnlock()
+		if stale == nil {
+			continue
+		}
+		run.rpc.CloseAddr(run.srv.addr)
+		time.Sleep(60 * time.Millisecond) // the send loop sees closed, fails what is queued and exits
+		run.rpc.Lock()
+		if run.rpc.connPools[run.srv.addr] == nil {
+			run.rpc.connPools[run.srv.addr] = stale
+		}
+		run.rpc.Unlock()
+		for i := 0; i < 12; i++ {
+			run.issue(mk("ad"[i%2]))
+		}
+		run.count("stalepool_async_after_close", 12)
+		run.rpc.Lock()
+		if run.rpc.connPools[run.srv.addr] == stale {
+			delete(run.rpc.connPools, run.srv.addr)
+		}
+		run.rpc.Unlock()
+	}
 	rounds := vrep.Pick(12, 40)
 	for round := 0; round < rounds; round++ {
 		pat := patterns[rng.Intn(len(patterns))]
